@@ -12,11 +12,12 @@
    (a) shows every real voter satisfies.
    (d) THE COMPOSED STATEMENT: over the cluster transition system of Model/Cluster.v (candidate
        loops + handlers + a network that delays, reorders, duplicates and loses, with store
-       failures, crash cuts and restarts at every server), for elections held under one
-       configuration, no run has two servers become leader in the same term
-       (C01_election_safety).  Not covered by (d): elections that straddle a membership change
-       (the ingredient, intersection of adjacent majorities, is (b)), and pre-vote rounds (they
-       only gate whether electSelf runs; C14). *)
+       failures, crash cuts and restarts at every server), no run has two servers become leader
+       in the same term - for elections held under one configuration (C01_election_safety) and
+       for elections that straddle one membership change, i.e. held under either of two
+       successive configurations (C01_election_safety_across_membership_change).  Not covered by
+       (d): a chain of several uncommitted membership changes (the code serialises them: C07),
+       and pre-vote rounds (they only gate whether electSelf runs; C14). *)
 From Coq Require Import List NArith Lia.
 From stdpp Require Import gmap.
 From RaftModel Require Import Base Config Node NodeCodec Candidate Cluster.
@@ -76,17 +77,27 @@ Print Assumptions C01_quorum_size_is_majority.
    once per invocation and peer or lost (GVoteResp), and any other RPC, stray vote request,
    TimeoutNow or restart at any server (GInput): two servers never become leader of one term. *)
 Theorem C01_election_safety : forall cfg g0 ls g T i i',
-  NoDup (voters cfg) -> ginit_ok g0 -> grun cfg g0 ls = Some g ->
+  NoDup (voters cfg) -> ginit_ok g0 -> grun [cfg] g0 ls = Some g ->
   In (T, i) (g_leaders g) -> In (T, i') (g_leaders g) -> i = i'.
 Proof. exact election_safety. Qed.
 Print Assumptions C01_election_safety.
+
+(* ... and when the elections straddle one membership change - some servers campaign under the old
+   configuration, others already under the new one (one voter added, removed, promoted or demoted,
+   as nextConfiguration allows): still at most one leader per term. *)
+Theorem C01_election_safety_across_membership_change : forall cur idx q new g0 ls g T i i',
+  check_config cur = true -> next_config cur idx q = Some new -> NoDup (voters cur) -> NoDup (voters new) ->
+  ginit_ok g0 -> grun [cur; new] g0 ls = Some g ->
+  In (T, i) (g_leaders g) -> In (T, i') (g_leaders g) -> i = i'.
+Proof. exact election_safety_across_change. Qed.
+Print Assumptions C01_election_safety_across_membership_change.
 
 (* non-vacuity: three servers; 1 times out, 2 and 3 execute its request, one response makes it
    leader of term 2; 3 then times out, 2 grants it term 3: two leaders, of different terms *)
 Example C01_cluster_run :
   let cfg := mk_cfg 3 in
   let g0 := mkG (map (fun i => mk_node cfg i 0) [1; 2; 3]) [] [] [] in
-  match grun cfg g0 [GTimeout 1; GVoteReq 1 2 0 []; GVoteReq 1 3 0 []; GVoteResp 1 2; GTimeout 3; GVoteReq 3 2 0 []; GVoteResp 3 2] with
+  match grun [cfg] g0 [GTimeout 1; GVoteReq 1 2 0 []; GVoteReq 1 3 0 []; GVoteResp 1 2; GTimeout 3; GVoteReq 3 2 0 []; GVoteResp 3 2] with
   | Some g => g_leaders g = [(3, 3); (2, 1)]
   | None => False
   end.
